@@ -9,6 +9,7 @@
 #include "unique_table.h"
 #include "compute_table.h"
 #include "ct_initializer.h"
+#include "storage/ct_styles.h"
 #include "node_headers.h"
 
 #include <cstdio>
@@ -447,6 +448,10 @@ static CTcfg ct_parse(const std::string& s)
 static bool lib_up = false;
 static void lib_init(const CTcfg& c = CTcfg())
 {
+    // The ct_initializer constructor (inside defaultInitializerList) RESETS the static compute-table settings to the
+    // library defaults, so the list must exist before the settings are chosen (this is also the order the library's own
+    // tests use).  An earlier version of this function chose first and thereby silently ran every "configuration" as the default.
+    initializer_list* IL = defaultInitializerList(nullptr);
     switch (c.style) {
         case 'c': ct_initializer::setBuiltinStyle(ct_initializer::MonolithicChainedHash); break;
         case 'C': ct_initializer::setBuiltinStyle(ct_initializer::OperationChainedHash); break;
@@ -460,9 +465,20 @@ static void lib_init(const CTcfg& c = CTcfg())
     }
     ct_initializer::setMaxSize(c.maxSize);
     ct_initializer::setCompression(c.compress ? compressionOption::TypeBased : compressionOption::None);
-    initializer_list* IL = defaultInitializerList(nullptr);
     MEDDLY::initialize(IL);
     lib_up = true;
+    // bind the requested configuration to the one in force (private statics read through -fno-access-control)
+    {
+        const compute_table_style* f = ct_initializer::ct_factory;
+        const bool styleok = (c.style=='c' && dynamic_cast<const monolithic_chained_style*>(f)) || (c.style=='C' && dynamic_cast<const operation_chained_style*>(f))
+                          || (c.style=='U' && dynamic_cast<const operation_unchained_style*>(f)) || (c.style=='u' && dynamic_cast<const monolithic_unchained_style*>(f));
+        const staleRemovalOption so = c.stale=='a' ? staleRemovalOption::Aggressive : c.stale=='l' ? staleRemovalOption::Lazy : staleRemovalOption::Moderate;
+        const bool mono = (c.style=='c' || c.style=='u');
+        if (!styleok || ct_initializer::the_settings.staleRemoval!=so || ct_initializer::the_settings.maxSize!=c.maxSize
+            || (ct_initializer::the_settings.compression==compressionOption::TypeBased)!=c.compress || (compute_table::Monolithic_CT!=nullptr)!=mono) {
+            printf("\nCRASH\t%ld\t%d\tharness: compute-table configuration %s requested but not in force\n", ctx.caseno, 98, c.name().c_str()); fflush(stdout); _exit(98);
+        }
+    }
 }
 static void lib_done() { if (lib_up) MEDDLY::cleanup(); lib_up = false; }
 
